@@ -147,6 +147,10 @@ func (e *Encoder) writeMap(data interface{}) (int, error) {
 		count = vv.NumField()
 		for i := 0; i < count; i++ {
 			f := vv.Field(i)
+			if !f.CanInterface() {
+				// reflection cannot read an unexported field: the value is refused, not a reason to panic
+				return 0, newCodecError("writeMap", "unexported field %s of %v cannot be encoded", typ.Field(i).Name, typ)
+			}
 			if _, err := e.writeString(f.Type().Name()); err != nil {
 				return 0, err
 			}
